@@ -21,7 +21,7 @@ CHECKS = {
              "response code) variant, area tables and keys, byte-sized session area, encryption flag provenance, header-only "
              "failed responses; W10 (= C05-E3) the pump's one silent return is restricted to the command/response stream, so no "
              "root event of a top-level decode is swallowed; W11 payload-kind table of the size-prefixed walker; W12 no discarded "
-             "generators; W13 (= C04-V4) every member of a named range is a member. Event values for concrete bytes are not decided. W14 every walker hands (size, value) back on every completing path. W15 the pump hands type, root path, command code, encryption flag and mode to the dispatcher; F also: the response's encryption cross-check is evaluated only in variants that decode a session area. Round 7: W7 has a folding mode - when the arm is not looked up in an inverted copy of _selected_by the union walker is evaluated (tpmsa.minieval, sub-decodes stubbed) for every reachable union and every selector value of its table plus one outside it (109 cases); F compares the encryption request in its normal form (tpmsa.encreq). Round 8: W7 folds whenever the selection is not the pinned inverted table and evaluates project classes / memoised helpers the walker uses; the dispatcher is recognised through a classification tag and a walker table (normal form N31).",
+             "generators; W13 (= C04-V4) every member of a named range is a member. Event values for concrete bytes are not decided. W14 every walker hands (size, value) back on every completing path. W15 the pump hands type, root path, command code, encryption flag and mode to the dispatcher; F also: the response's encryption cross-check is evaluated only in variants that decode a session area. Round 7: W7 has a folding mode - when the arm is not looked up in an inverted copy of _selected_by the union walker is evaluated (tpmsa.minieval, sub-decodes stubbed) for every reachable union and every selector value of its table plus one outside it (109 cases); F compares the encryption request in its normal form (tpmsa.encreq). Round 8: W7 folds whenever the selection is not the pinned inverted table and evaluates project classes / memoised helpers the walker uses; the dispatcher is recognised through a classification tag and a walker table (normal form N31). W16 (= C04-V5) the valid-value facets of the snapshot (a value dropped from an allowed set makes strict decoding reject well-formed input).",
         note="trusted: CPython ast; E1 model (guards G1-G7); semantics of int.from_bytes, dataclasses.fields order and generators.",
         technique="pinned table snapshot + decision-list evaluation over all type descriptors + partial evaluation / def-use rules on the walkers",
         design="4/C01",
@@ -70,7 +70,7 @@ CHECKS = {
              "V4 the membership chain (_INT.is_valid, ValidValues.__contains__/get, NamedRange, enum class membership) has "
              "the membership meaning - decided as decision tables over path summaries, NamedRange as an abstract data type (the "
              "constructor's bindings substituted into the observers' conditions: member exactly for start <= n < end); V5 valid-value and naming facets of all 719 pinned types (exhaustive); V6 unknown "
-             "command code -> ValueConstraintViolatedError with ValidValues(TPM_CC). The iff over concrete values is not decided. V6 also checks the declared type named by the unknown-command-code error. V7 (= C15-F1) every front-end hands the caller's options and the decoder's default mode on. V1's raise-after-event is judged per feasible path. V8 (= C01-W0) the decode facets of the snapshot: which allowed set a field is checked against is decided by its declared type.",
+             "command code -> ValueConstraintViolatedError with ValidValues(TPM_CC). The iff over concrete values is not decided. V6 also checks the declared type named by the unknown-command-code error. V7 (= C15-F1) every front-end hands the caller's options and the decoder's default mode on. V1's raise-after-event is judged per feasible path. V8 (= C01-W0) the decode facets of the snapshot: which allowed set a field is checked against is decided by its declared type. V6 also covers the union walker's value error (it carries the selector, declares type(selector), points at the union's path).",
         note="trusted: CPython ast; E1 model (guards G1-G7); 'first offending field' relies on C01-W4 ordering.",
         technique="CFG dominance + def-use + who-may-call rule + pinned valid-value tables",
         design="4/C04",
@@ -130,7 +130,7 @@ CHECKS = {
              "wrapping the caught error and return - however the handler is written, also when it lives in an extracted generator "
              "helper (TPM2B byte payload exempt, justified from L); Y3 recovery Nones are tested before iteration; Y4 recovery bookkeeping (padding charged "
              "to enclosing regions, nested regions retired, check-before-charge, skip amounts); Y5 completion of the processor on "
-             "a byte send handled by the pump. These are necessary structural conditions; the byte tiling itself is not decided. Y8 (= C15-F1) extra keyword arguments and the default mode reach the decoder through every front-end.",
+             "a byte send handled by the pump. These are necessary structural conditions; the byte tiling itself is not decided. Y8 (= C15-F1) extra keyword arguments and the default mode reach the decoder through every front-end. Y9 (= C04-V6, union part) the value error for a selector that selects no member is built from the selector itself.",
         note="trusted: CPython ast; L (E1). Eight open findings (K2, K6a, K6b x4 owners, K6c, K8) are genuine defects recorded in "
              "known_findings.json with witnesses in findings/repro_warn_mode.py; they need a redesign of the region bookkeeping / "
              "pump exit logic and are not repaired.",
@@ -158,7 +158,7 @@ CHECKS = {
              "with no byte request in between. T2: the buffer parameters of the pump and of the three lazy front-end "
              "scanners are used only through iter()/next() (except inside raise). T3: the processor never receives the "
              "buffer or iterator. T6: a scanner starts one traversal of its raw source only (bytes / lists restart). T5 (= C05-E3): the empty prefix of a non-stream decode reports depletion like every other "
-             "prefix. This is the structural core of the property; concrete pull counts are its dynamic view. T6 also: next() only on an iterator made from the source (never on the raw parameter). T7 (= C15-F11): a character obtained with next(it, default) reaches int(..., 16) only where the default was excluded. T2 also covers the front-end functions (hex / swtpm / auto marshal): no pre-read or materialisation of the caller's source. T8 no closure made in a loop over the sources reads its loop variable late (every reader would read the last source). T9 (= C19-L12) the file reader hands out every file to its end; T10 (= C03-R4) a decode starts from its own region list.",
+             "prefix. This is the structural core of the property; concrete pull counts are its dynamic view. T6 also: next() only on an iterator made from the source (never on the raw parameter). T7 (= C15-F11): a character obtained with next(it, default) reaches int(..., 16) only where the default was excluded. T2 also covers the front-end functions (hex / swtpm / auto marshal): no pre-read or materialisation of the caller's source. T8 no closure made in a loop over the sources reads its loop variable late (every reader would read the last source). T9 (= C19-L12) the file reader hands out every file to its end; T10 (= C03-R4) a decode starts from its own region list. T11 (= C11-A6 = C12-P2) the memo of the synthesised parameter-area type never evicts.",
         note="trusted: CPython ast; Python iterator/generator protocol. pcapng.marshal materialises its input by design (documented in the code) and is outside T2.",
         technique="CFG + typestate abstract interpretation of the pump, who-may-use rules on iterator/buffer variables",
         design="4/C10",
@@ -172,7 +172,7 @@ CHECKS = {
              "tables and keys, recognise encrypted areas by TPM2B_ENCRYPTED_PARAM's field names, remember a Response's command "
              "code; A5 sibling rule: every node the decoder announces with an event but returns as None is mapped to None by "
              "the events->object builder too; A7 (= C01-W7) a union arm without payload decodes to None. A1-A5 are decided on path summaries (hidden / marker / list parent / value per field "
-             "as a decision list), not on the text of the branches. These are necessary conditions; the round trips themselves are not decided. A8: no unbound local / undefined name in common/object.py. A9 (= C19-L9 = C15-F2) every front-end returns the decoder's result; A2 folds the union test of obj_to_events over every layout class; A4 finds the member-type resolver by role (closure or function handed the caller's variables). A1's set of invisible members may be any literal collection.",
+             "as a decision list), not on the text of the branches. These are necessary conditions; the round trips themselves are not decided. A8: no unbound local / undefined name in common/object.py. A9 (= C19-L9 = C15-F2) every front-end returns the decoder's result; A2 folds the union test of obj_to_events over every layout class; A4 finds the member-type resolver by role (closure or function handed the caller's variables). A1's set of invisible members may be any literal collection. A10 (= C09-S5) the objects of a stream are rebuilt message by message with the pairing of C09.",
         note="trusted: CPython ast; L (E1); dataclass equality semantics.",
         technique="agreement (sibling) rules between decoder traces, the static layout model and the two converters",
         design="4/C11",
@@ -184,7 +184,7 @@ CHECKS = {
              "receiver is a module-level or class-level object; P2 every memoising decorator in reachable code is unbounded or "
              "has capacity >= the key space from L (234 parameter areas); P3 no mutable defaults, no module-level "
              "generators/iterators; P5 (= C09-S2) nothing the response decode of a stream is given is left over from an earlier pair. "
-             "Together with Python's determinism this is the property's structural core. P4: no caller mutates the result of a memoised function (checked on the unmodified source). P6 a mutable container written in a class body is not mutated through an instance that has no copy of its own; P7 (= C17-M3) a cache keyed by a layout value is typed.",
+             "Together with Python's determinism this is the property's structural core. P4: no caller mutates the result of a memoised function (checked on the unmodified source). P6 a mutable container written in a class body is not mutated through an instance that has no copy of its own; P7 (= C17-M3) a cache keyed by a layout value is typed. P8 (= C09-S3) the stream's encryption predicate answers for the command's own session area with the response direction's bit.",
         note="trusted: CPython ast; call resolution by name over repo classes (over-approximation); a module-level instance of a "
              "repo class is followed through one local alias and through methods that return self, deeper aliasing is not tracked.",
         technique="call-graph reachability + effect (purity) analysis + memoisation capacity check against the static layout model",
@@ -278,7 +278,7 @@ CHECKS = {
              "bytes and warn mode to the selected front-end and prints every item the selected printer yields (hex for bytes) "
              "with no cut in the loop; L4 the type search decodes strictly and catches exactly the documented error classes; "
              "L5 example output is under the command-code filter / exact-type selection and rendered from one event list. The "
-             "statement's observable (stdout / exit status of a process) is not decided. L2 the suggestion lookup cannot fail; L7 an eager Canonical has decoded inside its constructor with the arguments it was given, `type` lists the decoded type name (responses with their command code); L6 no unbound local / undefined name. L8 cc_name folded over all command codes gives the member's name; L7 also checks the plumbing of the type listing. L9 (= C15-F2) every front-end returns the decoder's result; L4 folds the tests on the candidate type over the layout's type listing (stream type and unions skipped, Response with every command code). L11 (= C11-A1) the members a message may lack are exactly those the object-to-events conversion leaves out; L4 follows candidate generators and command-code name tables; L7 accepts any whole-content read of args.file through a reader of tpmstream.io. L12 the file reader of tpmstream.io has no return inside and no break out of its loop over the files.",
+             "statement's observable (stdout / exit status of a process) is not decided. L2 the suggestion lookup cannot fail; L7 an eager Canonical has decoded inside its constructor with the arguments it was given, `type` lists the decoded type name (responses with their command code); L6 no unbound local / undefined name. L8 cc_name folded over all command codes gives the member's name; L7 also checks the plumbing of the type listing. L9 (= C15-F2) every front-end returns the decoder's result; L4 folds the tests on the candidate type over the layout's type listing (stream type and unions skipped, Response with every command code). L11 (= C11-A1) the members a message may lack are exactly those the object-to-events conversion leaves out; L4 follows candidate generators and command-code name tables; L7 accepts any whole-content read of args.file through a reader of tpmstream.io. L12 the file reader of tpmstream.io has no return inside and no break out of its loop over the files. L13 (= C15-F1) the options convert passes reach the decoder on every branch of every front-end.",
         note="weakest claim: shape of __main__.py only; trusted: argparse semantics.",
         technique="table agreement + decision lists over path summaries of the CLI functions",
         design="4/C19",
